@@ -91,26 +91,48 @@ def run_history(prog, hist):
 
 
 def judge_state(prog, target, grounded_q, grounded_e):
-    """evaluate the shared ground program and compare with R1 -> (symptom or None, detail)"""
+    """evaluate the shared ground program and compare, query by query, with R1 and with the grounding
+    of that query ALONE with the same evidence -> (symptom or None, detail)"""
     from problog import get_evaluatable
 
     if not grounded_q:
         return None, "no query"
-    p2 = dict(prog, queries=grounded_q, evidence=[[a, v, "pair"] for a, v in grounded_e])
-    ref = progcheck.reference(p2)
-    if ref["negcycle"]:
-        return None, "skipped"
-    # attribution: a fresh grounding of exactly these queries/evidence must itself be right
-    dsym, _, _, dout = progcheck.judge(p2, ref=ref)
-    if dsym is not None or dout[0] in ("timeout", "recursion"):
-        return None, "excluded: fresh grounding wrong (C01)"
+    ev = [[a, v, "pair"] for a, v in grounded_e]
     try:
         res = get_evaluatable().create_from(target).evaluate()
-        out = ("ok", {str(k): v for k, v in res.items()})
+        out = ("ok", {progcheck.norm_key(str(k)): v for k, v in res.items()})
     except Exception as exc:  # noqa
         out = classify_exception(exc)
-    sym, detail = progcheck.verdict(ref, out)
-    return sym, detail
+    judged = 0
+    for q in grounded_q:
+        p1 = dict(prog, queries=[q], evidence=ev)
+        ref = progcheck.reference(p1)
+        if ref["negcycle"]:
+            continue
+        # attribution: grounding this query alone (fresh engine, same evidence) must itself be right
+        dsym, _, _, dout = progcheck.judge(p1, ref=ref)
+        if dsym is not None or dout[0] in ("timeout", "recursion"):
+            continue
+        judged += 1
+        if ref["kind"] == "inconsistent":
+            if not (out[0] == "error" and out[1] == "InconsistentEvidenceError"):
+                return "not-inconsistent", "P(evidence)=0 but the shared ground program gives %r" % (out,)
+            continue
+        if out[0] != "ok":
+            sym, detail = progcheck.verdict(ref, out)
+            return sym, detail
+        # restrict the shared result to the instances of this query
+        inst = set(ref["cond"])
+        mine = {k: v for k, v in out[1].items() if k in inst}
+        for k, pexp in ref["cond"].items():
+            if k in mine:
+                if abs(mine[k] - pexp) > progcheck.TOL:
+                    return "wrong-probability", "%s: shared ground program gives %r, alone/reference %.12g" % (k, mine[k], pexp)
+            elif pexp > progcheck.TOL:
+                return "missing-instance", "%s missing from the shared ground program, alone/reference %.12g" % (k, pexp)
+    if not judged:
+        return None, "excluded: every query is wrong or unjudged when grounded alone (C01/C02)"
+    return None, ""
 
 
 def check_history(prog, hist):
